@@ -2,6 +2,7 @@
    case: (case k ("name" <checked Fun program> nargs) RES) where RES is (asm-ok RUN ...) with
    RUN = ((args) "stdout" OUTCOME), OUTCOME = (status n) or (signal n) or timeout; or ((asm-error "msg")) *)
 From Coq Require Import List ZArith NArith String Bool.
+From SCC Require Import Model.PipelineGuards.
 From SCC Require Import Base.Sexp Lang.SynUtil Lang.FunSyn Sem.AxSem Sem.CoreSem Sem.FunSem Sem.LabelGuard Model.Fun2Core Model.RunBase Model.RunFun2Core.
 Import ListNotations.
 Open Scope list_scope.
@@ -86,7 +87,8 @@ Definition c01_case (i r : sexp) : verdict :=
                   | _ =>
                       VOk ((if Nat.eqb compared 0 then "nocompare" else "nt") ++ " runs" ++ n_to_string (N.of_nat compared)
                            ++ (if shadowing_risk_prog p then " shadowing" else " no-shadow")
-                           ++ (if effect_sequenced p then " sequenced" else " unsequenced"))
+                           ++ (if effect_sequenced p then " sequenced" else " unsequenced")
+                           ++ (if in_composed_theorem p then " thm-middle" else " outside-thm"))
                   end
               end
           | _ => VBad "native result shape"
